@@ -45,6 +45,9 @@ func Reserve() (*Port, error) {
 		syscall.Close(fd)
 		return nil, err
 	}
+	// SO_REUSEADDR as well: a plain net.Listen of the owner (which sets SO_REUSEADDR, not SO_REUSEPORT) can then bind the
+	// port too, because the reservation never listens; the kernel still does not hand the port to anyone binding port 0.
+	syscall.SetsockoptInt(fd, syscall.SOL_SOCKET, syscall.SO_REUSEADDR, 1)
 	sa := &syscall.SockaddrInet4{Port: 0, Addr: [4]byte{127, 0, 0, 1}}
 	if err := syscall.Bind(fd, sa); err != nil {
 		syscall.Close(fd)
